@@ -120,7 +120,10 @@ def run_case(tap, g, idx, spec):
         v.append({"mechanism": mech, "message": msg, "case": case})
 
     real_g = (idx % spec["real_every"]) == 0 and nx * ny <= 64
-    ghe = GG.make_ghe(ph, coords, H, flow, loads, n_months, rgen=g, real_g=real_g)
+    # the simulated window need not begin in January (SimulationParameters(start_month, end_month, ...))
+    start_month = 1 if g.random() < 0.7 else int(g.choice([2, 4, 7, 12, 13]))  # (a window that starts in the third year, start_month = 25, raises IndexError in HybridLoad: logged as out of scope)
+    case["start_month"] = start_month
+    ghe = GG.make_ghe(ph, coords, H, flow, loads, n_months, start_month=start_month, rgen=g, real_g=real_g)
     P = params_of(ghe)
     scale = max(1.0, abs(P["tg"]))
     tap.pop()
